@@ -2,7 +2,7 @@
 """keep_seed.py <tag> <property> <caught-by text> <needs text> — store a confirmed seeded change under /verif/seeded/."""
 import json, os, shutil, sys
 tag, prop, caught, needs = sys.argv[1:5]
-src = "/tmp/mut/out_%s" % tag
+src = "/var/tmp/mut/out_%s" % tag
 dst = "/verif/seeded/%s" % tag
 os.makedirs(dst, exist_ok=True)
 for f in ("patch.diff", "demo.sh", "notes.txt"):
